@@ -922,6 +922,9 @@ def _pair_templates():
     from mitxgraders import (FormulaGrader as F, NumericalGrader as N, MatrixGrader as M, IntervalGrader as I,
                              SumGrader as S, StringGrader as St, SingleListGrader as SL, ListGrader as L)
     A = lambda: MathArray([[1, 2], [3, 4]])   # noqa: E731
+    from mitxgraders.comparers import MatrixEntryComparer
+    shared_entry = MatrixEntryComparer(entry_partial_credit='proportional')
+    shared_linear = LinearComparer(proportional=0.5, offset=0.4, linear=0.2)
     return {
         'num': (lambda: N(answers='pi'), ['pi', '3.14159', 'e', '1e400', 'infty']),
         'num_inf': (lambda: N(answers='pi', allow_inf=True), ['pi', 'infty', 'e']),
@@ -956,6 +959,21 @@ def _pair_templates():
         'form_n2_black': (lambda: F(answers='n^2', variables=['n', 'k'], blacklist=['sqrt', 'cos']), ['n^2', 'n*n', 'k^2']),
         'form_n2_required': (lambda: F(answers='sqrt(n^4)', variables=['n', 'k'], required_functions=['sqrt']),
                              ['n^2', 'sqrt(n^4)', 'k^2']),
+        # ONE comparer object in the answers of several graders (different tolerances / different expected values): what a
+        # comparer does for one grader must not depend on which grader used it before
+        'entry_shared_loose': (lambda: M(answers={'comparer': shared_entry, 'comparer_params': ['[1,2]']}, tolerance=0.5),
+                               ['[1.2,2]', '[1,2]', '[1,5]']),
+        'entry_shared_tight': (lambda: M(answers={'comparer': shared_entry, 'comparer_params': ['[1,2]']}, tolerance=0.001),
+                               ['[1.2,2]', '[1,2]', '[1.0004,2]']),
+        'entry_shared_pct': (lambda: M(answers={'comparer': shared_entry, 'comparer_params': ['[1,2,3]']}, tolerance='10%'),
+                             ['[1.2,2,3]', '[1,2,3]', '[1,5,3]']),
+        'linear_shared_x': (lambda: F(answers={'comparer': shared_linear, 'comparer_params': ['x']}, variables=['x'],
+                                      tolerance=1e-6),
+                            ['2*x', 'x+1', '0', '3*x+1', 'x']),
+        'linear_shared_zero': (lambda: F(answers=({'comparer': shared_linear, 'comparer_params': ['0']},
+                                                  {'expect': {'comparer': shared_linear, 'comparer_params': ['x+1']},
+                                                   'grade_decimal': 0.5}), variables=['x'], tolerance=1e-6),
+                               ['0', '2*x+2', 'x', 'x+1']),
         'string': (lambda: St(answers='cat', wrong_msg='no'), ['cat', 'dog']),
         'slist': (lambda: SL(answers=['x+1', '2*x'], subgrader=F(variables=['x'])), ['x+1, 2*x', '2*x, pi']),
         'list': (lambda: L(answers=['x', 'pi'], subgraders=F(variables=['x'])), [['x', 'pi'], ['pi', '2k']]),
